@@ -125,6 +125,9 @@ func (h *Hub) ServeHTTP(w http.ResponseWriter, r *http.Request) {
 
 	remoteService = service
 
+	h.muxConnect.Lock()
+	defer h.muxConnect.Unlock()
+
 	// don't allow a second connection
 	if !h.keepThisConnection(conn, true, remoteService) {
 		_ = conn.Close()
@@ -209,6 +212,9 @@ func (h *Hub) connectFoundService(remoteService *api.ServiceDetails, host, port,
 		_ = conn.Close()
 		return errors.New(errorString)
 	}
+
+	h.muxConnect.Lock()
+	defer h.muxConnect.Unlock()
 
 	if !h.keepThisConnection(conn, false, remoteService) {
 		errorString := fmt.Sprintf("closing connection to %s: ignoring this connection", remoteService.SKI())
